@@ -97,8 +97,56 @@ def check_wire_titles():
     return None
 
 
+def check_unbind():
+    """native: the REAL bind/unbind bookkeeping (events._add_handler / _remove_handler) - unbinding changes nothing but the named
+    binding: the identity handler stays in force unless IT is the one unbound"""
+    from pynetdicom import evt
+    from pynetdicom.events import _add_handler, _remove_handler, get_default_handler
+
+    def mine(event):
+        return False, None
+
+    def other(event):
+        return True, None
+
+    def note(event):
+        pass
+
+    def note2(event):
+        pass
+    for ev in (evt.EVT_USER_ID, evt.EVT_C_ECHO, evt.EVT_SOP_EXTENDED):
+        attr = {}
+        _add_handler(ev, attr, (mine, None))
+        _add_handler(evt.EVT_CONN_OPEN, attr, (note, None))
+        before = dict(attr)
+        for what, h in (("a callable that is not bound", other), ("the default handler", get_default_handler(ev))):
+            _remove_handler(ev, attr, h)
+            if attr != before:
+                return dict(input={"event": ev.name, "bound": "mine", "unbind called with": what}, observed={"binding now": repr(attr.get(ev))},
+                            expected={"binding now": repr(before[ev])})
+        _remove_handler(evt.EVT_CONN_OPEN, attr, note2)
+        _remove_handler(evt.EVT_CONN_CLOSE, attr, note)
+        if attr != before:
+            return dict(input={"event": "EVT_CONN_OPEN/EVT_CONN_CLOSE", "unbind called with": "a callable that is not bound"},
+                        observed=repr(attr), expected=repr(before))
+        _remove_handler(ev, attr, mine)
+        if attr.get(ev) != (get_default_handler(ev), None) or attr.get(evt.EVT_CONN_OPEN) != [(note, None)]:
+            return dict(input={"event": ev.name, "unbind called with": "the bound handler"}, observed=repr(attr),
+                        expected="the default handler for that event, other bindings untouched")
+        _remove_handler(evt.EVT_CONN_OPEN, attr, note)
+        if evt.EVT_CONN_OPEN in attr:
+            return dict(input={"event": "EVT_CONN_OPEN", "unbind called with": "its only handler"}, observed=repr(attr), expected="entry removed")
+    return None
+
+
 def main():
     rec = load() if len(sys.argv) > 1 and sys.argv[1] != "--all" else {"id": "all"}
+    if "_remove_handler" in rec.get("id", "") or rec.get("id", "").endswith("cross-check") or rec.get("id") == "all":
+        bad = check_unbind()
+        if bad:
+            done(True, **bad)
+        if "_remove_handler" in rec.get("id", ""):
+            done(False, note="the real unbind bookkeeping changes only the named binding")
     if "ae_title.fset" in rec.get("id", "") or rec.get("id", "").endswith("cross-check") or rec.get("id") == "all":
         bad = check_wire_titles()
         if bad:
